@@ -14,17 +14,54 @@ def run(ctx):
     drv, sess, tally = E.common_setup(ctx, "C02")
     ctx.rule = ("per type: the empty string, K valid encodings of random in-range values, every truncation of each (sampled cut points above 48 "
                 "bytes), extensions with random bytes / zeros / ones, 1-5 bit flips (biased to the first 6 bytes: prefixes, tags, delimiter "
-                "headers), R random strings (random, all-ones, all-zeros, small leading numbers); non-trivial = non-empty string; distinct by "
-                "(type, bytes)")
+                "headers), R random strings (random, all-ones, all-zeros, small leading numbers); strings with one length prefix above its "
+                "capacity (+1, roundup8, +1) and cuts of them; dereuse pairs (A then B into the SAME object; B = empty / zero value / emptied "
+                "value / proper prefix of A / random) answered as de B; every de also with the input as a sub-range of a larger buffer (C, "
+                "C++), NULL buffer of size 0 and _initialize_ (C, empty input); Python: every string also as 3 other fragment spellings "
+                "(all 6 for the empty string: no fragment at all, only empty fragments, ...; read-only / bytes / bytearray / ndarray "
+                "fragments, tuple, 2 / 5 fragments, empty fragments first / middle / last, one per byte, mixed kinds; chosen by CRC); "
+                "non-trivial = non-empty string; distinct by (type, op, bytes)")
     rng = ctx.rng
     k, r = (6, 20) if ctx.quick else (10, 40)
     reqs = E.corpus_requests(sess, "C02")
     for gt in sess.ns.types:
         for b in E.bytes_cases(rng, gt, k, r):
             reqs.append(E.Req(gt, "de", b))
+        # one length prefix above the capacity of its array (by one, up to the next multiple of 8, one beyond), rest valid
+        for b in E.overcap_bytes(rng, gt, 3 if ctx.quick else 8):
+            reqs.append(E.Req(gt, "de", b, origin="overcap"))
+        for b in E.nan_wire_bytes(rng, gt, 3 if ctx.quick else 8):      # NaNs by bit pattern (sNaN, payload in the low bits only, ...)
+            reqs.append(E.Req(gt, "de", b, origin="nan-patterns"))
+        # decoding into an object that still holds an earlier message (populated arrays, another union option)
+        for a, b in E.reuse_byte_pairs(rng, gt, 6 if ctx.quick else 14):
+            reqs.append(E.Req(gt, "dereuse", (a, b), origin="reuse"))
     E.run_requests(ctx, sess, drv, "de", reqs, tally)
+    api_conventions(ctx, sess, tally)
+    E.record_spellings(ctx, sess)
     E.run_refinement_ties(ctx)
     ctx.sample({"type": reqs[-1].gt.tstr[:200], "request": reqs[-1].target_line()[:200]})
+
+
+API_EXPECTED = "ok -2 -2 -2 -2 -2 -2 0"
+
+
+def api_conventions(ctx, sess, tally):
+    """Argument conventions the generated C documents: NULL object / buffer / size pointer -> -NUNAVUT_ERROR_INVALID_ARGUMENT
+    from both functions, except a NULL source buffer of size 0 (accepted; its decoded value is compared with `de -` as an
+    alternative spelling of every empty-input request); _initialize_(NULL) does nothing."""
+    for t in sess.targets:
+        if t.lang != "c":
+            continue
+        ans = t.ask([f"api {gt.index}" for gt in sess.ns.types])
+        for gt, a in zip(sess.ns.types, ans):
+            ctx.case((gt.tstr, t.name, "api"), True)
+            ctx.count("api-conventions-compared")
+            if a != API_EXPECTED:
+                tally.fail({"kind": "api:null-arguments", "lang": "c", "leaf": "-"},
+                           f"{t.name}: NULL-argument conventions of {gt.full_name}: {a} (serialize obj/buffer/size NULL, deserialize obj/size NULL, "
+                           f"NULL buffer with size 1, NULL buffer with size 0), documented {API_EXPECTED}",
+                           lambda gt=gt, t=t, a=a: {"type": f"{gt.full_name}.{gt.version[0]}.{gt.version[1]}", "op": "api", "target": t.name, "options": t.options,
+                                                   "files": E.deps_texts(sess.ns, gt), "expected": API_EXPECTED, "got": a})
 
 
 def replay(ctx, path):
